@@ -5,8 +5,7 @@ import KaVerif.Lemmas.DisplayLemmas
   the model in Model/Display.lean.
 
   Text is `List Char`.  `names` are the base-unit names, `N` the configured precision (any int),
-  `b` = brackets_for_frac, `ivs` selects how display_result prints an interval (false = the tree as
-  it stands: `Interval.__str__`; true = through stringify_result, the proposed repair).
+  `b` = brackets_for_frac.
 -/
 namespace KaVerif
 open Display
@@ -14,8 +13,8 @@ open Display
 /-- **C15 (integers print in full).**  For every integer, of any size, the displayed line and the
     re-entry text are its complete decimal expansion — the same characters as Lean's own
     `toString n` (`Nat.toDigits 10`) — and reading that text back digit by digit gives `n`. -/
-theorem C15_int_full (names : List Text) (N : Int) (b ivs : Bool) (n : Int) :
-    displayResult names N b ivs (.num (.int n)) = .ok (intText n ++ ['\n']) ∧
+theorem C15_int_full (names : List Text) (N : Int) (b : Bool) (n : Int) :
+    displayResult names N b (.num (.int n)) = .ok (intText n ++ ['\n']) ∧
     stringify names N b (.num (.int n)) = .ok (intText n) ∧
     String.ofList (intText n) = toString n ∧
     readInt (intText n) = some n :=
@@ -45,9 +44,9 @@ theorem C15_approx_total (N : Int) (q : Rat) : ∃ ap, approximateFrac N q = .ok
     displayed line is the mixed-or-plain text `t`, five spaces, and the decimal approximation in
     parentheses; and `t`, read as a person reads a mixed number (`-2 1/3` ↦ −(2 + 1/3)), is
     exactly `q`.  The line is always produced. -/
-theorem C15_frac (names : List Text) (N : Int) (b ivs : Bool) (q : Rat) :
+theorem C15_frac (names : List Text) (N : Int) (b : Bool) (q : Rat) :
     (∀ ap, approximateFrac N q = .ok ap →
-      displayResult names N b ivs (.num (.frac q)) =
+      displayResult names N b (.num (.frac q)) =
         .ok (prettifyFrac q false ++ ' ' :: ("    (".toList ++ ap ++ [')']) ++ ['\n'])) ∧
     (∃ ap, approximateFrac N q = .ok ap) ∧
     readMixed (prettifyFrac q false) = some q := by
@@ -140,21 +139,39 @@ theorem C15_reentry_exact_partial (names : List Text) (N : Int) (x : Num)
   · exact ⟨intText n, _, rfl, readEntryNum_intText n, evalA_entry_int n⟩
   · exact ⟨'(' :: fracText q ++ [')'], _, rfl, readEntryNum_bracketed q hd, evalA_entry_frac q hd⟩
 
+/-- **C15 (re-entry, quantities with exact magnitudes).**  The re-entry text of a quantity whose
+    magnitude is an integer or a non-integral fraction is `<magnitude text> <unit text>` where the
+    magnitude text (fractions in brackets — without them `1/3 m` would parse as `1/(3 m)`)
+    evaluates, as in `C15_reentry_exact_partial`, to exactly the magnitude, and the unit text
+    reads back to exactly the dimension vector.
+    PARTIAL in the same sense: own readers instead of Ka's lexer/parser and unit lookup (C13). -/
+theorem C15_reentry_qty_partial (names : List Text) (N : Int) (x : Num) (dim : List Int)
+    (hx : (∃ n, x = .int n) ∨ (∃ q : Rat, x = .frac q ∧ q.den ≠ 1))
+    (hg : GoodNames names) (hnd : names.Nodup) (hl : dim.length = names.length) :
+    ∃ tm e, reentryText names N (.qty x dim) = .ok (tm ++ ' ' :: prettified names dim) ∧
+      readEntryNum tm = some e ∧ evalA e = .ok x ∧
+      readDim names (prettified names dim) = some dim := by
+  rcases hx with ⟨n, rfl⟩ | ⟨q, rfl, hd⟩
+  · exact ⟨intText n, _, rfl, readEntryNum_intText n, evalA_entry_int n,
+      readDim_prettified names hg hnd dim hl⟩
+  · exact ⟨'(' :: fracText q ++ [')'], _, rfl, readEntryNum_bracketed q hd, evalA_entry_frac q hd,
+      readDim_prettified names hg hnd dim hl⟩
+
 /-- **C15 (quantities, structural).**  A quantity is shown as its magnitude, one space, and the
     base-unit text `prettified names dim`; a fraction magnitude is shown as a mixed number (in
     brackets when `brackets_for_frac`), which reads back to the magnitude, followed by the decimal
     approximation with the same unit text.  The re-entry text is the magnitude's re-entry text
     (fractions bracketed), one space, the unit text.  The unit text, read word by word against the
     base-unit names (distinct non-empty words of letters), gives back exactly the dimension vector. -/
-theorem C15_qty (names : List Text) (N : Int) (b ivs : Bool) (mag : Num) (dim : List Int) :
+theorem C15_qty (names : List Text) (N : Int) (b : Bool) (mag : Num) (dim : List Int) :
     (∀ q ap, mag = .frac q → approximateFrac N q = .ok ap →
-      displayResult names N b ivs (.qty mag dim) =
+      displayResult names N b (.qty mag dim) =
         .ok (prettifyFrac q b ++ ' ' :: prettified names dim ++
               ("    (".toList ++ ap ++ ' ' :: prettified names dim ++ [')']) ++ ['\n']) ∧
       prettifyFrac q true = '(' :: prettifyFrac q false ++ [')'] ∧
       readMixed (prettifyFrac q false) = some q) ∧
     (∀ m, (∀ q, mag ≠ .frac q) → displayNum N mag = .ok m →
-      displayResult names N b ivs (.qty mag dim) = .ok (m ++ ' ' :: prettified names dim ++ ['\n'])) ∧
+      displayResult names N b (.qty mag dim) = .ok (m ++ ' ' :: prettified names dim ++ ['\n'])) ∧
     (∀ m, stringifyNum N b mag = .ok m →
       stringify names N b (.qty mag dim) = .ok (m ++ ' ' :: prettified names dim)) ∧
     (GoodNames names → names.Nodup → dim.length = names.length →
@@ -175,41 +192,39 @@ theorem C15_qty (names : List Text) (N : Int) (b ivs : Bool) (mag : Num) (dim : 
 /-- **C15 (arrays, element-wise).**  The text of an array — displayed or offered for re-entry —
     is `{`, the texts of its elements in order separated by `", "`, `}`; each piece is exactly the
     `stringify_result` text of the corresponding element (display: with brackets_for_frac off). -/
-theorem C15_array (names : List Text) (N : Int) (b ivs : Bool) (xs : List DVal) (ts : List Text)
+theorem C15_array (names : List Text) (N : Int) (b : Bool) (xs : List DVal) (ts : List Text)
     (h : stringifyList names N b xs = .ok ts) :
     stringify names N b (.arr xs) = .ok ('{' :: joinWith [',', ' '] ts ++ ['}']) ∧
     ts.length = xs.length ∧
     (∀ i (hi : i < xs.length) (hj : i < ts.length), stringify names N b xs[i] = .ok ts[i]) ∧
-    (b = false → displayResult names N true ivs (.arr xs) = .ok ('{' :: joinWith [',', ' '] ts ++ ['}', '\n'])) := by
+    (b = false → displayResult names N true (.arr xs) = .ok ('{' :: joinWith [',', ' '] ts ++ ['}', '\n'])) := by
   obtain ⟨hl, hel⟩ := stringifyList_spec names N b xs ts h
   refine ⟨?_, hl, hel, ?_⟩
   · simp [stringify, h, bind, Except.bind]
   · rintro rfl
     simp [displayResult, h, bind, Except.bind]
 
-/-- **C15 (intervals, element-wise).**  An interval with exact bounds is shown — by either
-    display variant, and in the re-entry text — as `[`, lower bound, `", "`, upper bound, `]`,
+/-- **C15 (intervals, element-wise).**  An interval with exact bounds is shown — on display and
+    in the re-entry text — as `[`, lower bound, `", "`, upper bound, `]`,
     where each bound's text (`n`, `-n`, `n/d`, `-n/d`) reads back to exactly that bound. -/
-theorem C15_interval (names : List Text) (N : Int) (b ivs : Bool) (x y : Num)
+theorem C15_interval (names : List Text) (N : Int) (b : Bool) (x y : Num)
     (hx : x.isFloat = false) (hy : y.isFloat = false) :
     ∃ tx ty, stringifyNum N false x = .ok tx ∧ stringifyNum N false y = .ok ty ∧
       readMixed tx = some x.toRat ∧ readMixed ty = some y.toRat ∧
       stringify names N b (.intv x y) = .ok ('[' :: tx ++ ',' :: ' ' :: ty ++ [']']) ∧
-      displayResult names N b ivs (.intv x y) = .ok ('[' :: tx ++ ',' :: ' ' :: ty ++ [']', '\n']) := by
+      displayResult names N b (.intv x y) = .ok ('[' :: tx ++ ',' :: ' ' :: ty ++ [']', '\n']) := by
   have key : ∀ z : Num, z.isFloat = false →
-      ∃ t, stringifyNum N false z = .ok t ∧ pyStrNum z = t ∧ readMixed t = some z.toRat := by
+      ∃ t, stringifyNum N false z = .ok t ∧ readMixed t = some z.toRat := by
     intro z hz
     cases z with
-    | int n => exact ⟨intText n, rfl, rfl, readMixed_intText n⟩
-    | frac q => exact ⟨fracText q, rfl, rfl, readMixed_fracText q⟩
+    | int n => exact ⟨intText n, rfl, readMixed_intText n⟩
+    | frac q => exact ⟨fracText q, rfl, readMixed_fracText q⟩
     | flt f => simp [Num.isFloat] at hz
-  obtain ⟨tx, h1, p1, r1⟩ := key x hx
-  obtain ⟨ty, h2, p2, r2⟩ := key y hy
+  obtain ⟨tx, h1, r1⟩ := key x hx
+  obtain ⟨ty, h2, r2⟩ := key y hy
   refine ⟨tx, ty, h1, h2, r1, r2, ?_, ?_⟩
   · simp [stringify, h1, h2, bind, Except.bind]
-  · cases ivs
-    · simp [displayResult, p1, p2]
-    · simp [displayResult, stringify, h1, h2, bind, Except.bind]
+  · simp [displayResult, stringify, h1, h2, bind, Except.bind]
 
 /-! ### non-vacuity -/
 
